@@ -182,7 +182,15 @@ func runK2(e *env, name string, batches []*k2Batch) (*k2Result, error) {
 						var args []*sx.Node
 						var argStrs []string
 						for _, a := range m.RawArgs {
+							if string(a.Use) == "target" && vg.Mode == 0 {
+								vg.Mode = 1 // the update target instance exists (a nil target is the caller's error)
+							}
 							v := vg.Value(a.Type.T)
+							if string(a.Use) == "target" && v.String() == "nil" {
+								vg.Mode = 1
+								v = vg.Value(a.Type.T)
+							}
+							vg.Mode = vi
 							args = append(args, v)
 							argStrs = append(argStrs, v.String())
 						}
